@@ -151,10 +151,21 @@ fn scenario(ctx: &Ctx, idx: u64) -> Report {
         let t_up = outages.iter().map(|(_, b)| *b).max().unwrap_or(0);
         let outs = outages.clone();
         let mut link = Link::uniform(2 * MS, 200 * MS);
+        let fast_lan = rng.gen_bool(0.3);
+        if fast_lan {
+            // round trips shorter than a late-returning send (see `linger` below)
+            link = Link::uniform(0, 2 * MS);
+        }
         link.dup_p = *[0.0, 0.0, 0.2].choose(&mut rng).unwrap();
+        // an outage either swallows datagrams or makes the node's send_to fail (network unreachable)
+        let outage_fails_sends = rng.gen_bool(0.35);
         net.set_fault(Box::new(move |rng, meta| {
             if outs.iter().any(|(a, b)| meta.now >= *a && meta.now < *b) {
-                Fate::dropped()
+                if outage_fails_sends && meta.from_socket {
+                    Fate::failed()
+                } else {
+                    Fate::dropped()
+                }
             } else {
                 link.decide(rng, meta.from_socket)
             }
@@ -165,10 +176,18 @@ fn scenario(ctx: &Ctx, idx: u64) -> Report {
             .with("proper_contacts", proper)
             .with("routers", cfg.routers.len())
             .with("overlap_node_and_router", overlap)
+            .with("outage_fails_sends", outage_fails_sends)
             .with("t_up_s", t_up / SEC);
 
         // ---- run
         net.set_send_yield(*[0.0, 0.0, 0.3, 1.0].choose(&mut rng).unwrap());
+        // sends that return late (blocked socket, descheduled sender): the answer may be on its way,
+        // or even delivered, before the sending task continues
+        let linger = *[(0.0, 0), (0.0, 0), (0.0, 0), (0.5, 10 * MS), (1.0, 20 * MS)].choose(&mut rng).unwrap();
+        net.set_send_linger(linger.0, linger.1);
+        if linger.0 > 0.0 {
+            report.count("runs_with_late_returning_sends");
+        }
         let dht = spawn_node(&net, &cfg);
         report.evaluations += 1;
         report.distinct(format!(
@@ -188,7 +207,8 @@ fn scenario(ctx: &Ctx, idx: u64) -> Report {
         ));
 
         // bound for a waiter: back-off slot + initial round + bucket rounds
-        let bound = 660 * SEC + 500 * MS * n_contacts as u64;
+        // (sends that return up to 20 ms late add at most 160 rounds x 8 sends x 20 ms; 60 s of slack)
+        let bound = 660 * SEC + 500 * MS * n_contacts as u64 + if linger.0 > 0.0 { 60 * SEC } else { 0 };
         let horizon = t_up + bound + 30 * SEC;
 
         let waiters: Arc<Mutex<Vec<Waiter>>> = Arc::new(Mutex::new(Vec::new()));
@@ -398,10 +418,11 @@ pub fn check(tier: Tier) -> Check {
         level: "exploration",
         rule: "Builder configurations: 0..40 contacts given as nodes, routers (literal ip:port) or both; \
                each contact proper / silent / error-answering / garbage-answering; read-only on/off; IPv4/IPv6; \
-               outage patterns (none, one outage of 1 s..2 h, flapping, up-then-down, random); 1..20 \
+               outage patterns (none, one outage of 1 s..2 h, flapping, up-then-down, random; datagrams vanish or send_to fails); 1..20 \
                bootstrapped() callers at random times, in 60 % of the runs also callers and bursts of get_state / \
                load_contacts / local_addr calls issued in the very instant a datagram reaches the node (racing \
-               the bootstrap worker's state changes); 20 % duplicated datagrams in a third of the runs. Oracle: API liveness probes (get_state, \
+               the bootstrap worker's state changes); 20 % duplicated datagrams in a third of the runs; in 40 % of the runs the node's send_to returns up to 20 ms \
+               late (in 30 % round trips are below 4 ms, so answers arrive while the sender is still suspended in the send). Oracle: API liveness probes (get_state, \
                load_contacts, local_addr within 2 virtual seconds) six times per run; no traffic and \
                immediate resolution without contacts; no resolution before the first reply from a contact \
                was delivered; with plain-node contacts of which at least one answers properly every waiter \
